@@ -157,8 +157,9 @@ def _powc(node, ctx):
     c = float(node[2])
     r = _re(a)
     if c == int(c):
-        if c < 0 and np.any(np.abs(r) <= 1e-6):
-            raise OutOfDomain('negative integer power of ~0')
+        if c <= 0 and np.any(np.abs(r) <= 1e-6):
+            # 0**0 and 0**-k: outside the regular domain (the two evaluators differ on 0**0)
+            raise OutOfDomain('non-positive integer power of ~0')
         return a ** int(c)
     if np.any(r <= 1e-6):
         raise OutOfDomain('non-integer power of non-positive')
